@@ -207,20 +207,27 @@ func runContention(r *common.Run) int {
 		addrs, nicks []int
 		kind         string
 		maxLen       int
+		ns           string // configuration token of the session ("" = jabber:client, with callbacks)
 	}
 	confs := []conf{
-		{[]int{0, 0}, nil, "core", 5},        // two channels for one occupant address
-		{[]int{0, 0}, []int{10}, "plain", 3}, // … which may also ask for another nickname
-		{[]int{0, 10}, nil, "plain", 3},      // two nicknames of one room, each channel may ask for the other's
-		{[]int{0, 0}, nil, "full", 3},        // with cancelled calls and occupant presences
+		{[]int{0, 0}, nil, "core", 5, ""},        // two channels for one occupant address
+		{[]int{0, 0}, []int{10}, "plain", 3, ""}, // … which may also ask for another nickname
+		{[]int{0, 10}, nil, "plain", 3, ""},      // two nicknames of one room, each channel may ask for the other's
+		{[]int{0, 0}, nil, "full", 3, ""},        // with cancelled calls and occupant presences
+		{[]int{0, 0}, nil, "core", 3, "%a"},      // the same on a component session …
+		{[]int{0, 10}, nil, "plain", 2, "%sn"},   // … and on a server-to-server session, Client without callbacks
 	}
 	if r.Tier == "thorough" {
 		confs = []conf{
-			{[]int{0, 0}, nil, "core", 5},
-			{[]int{0, 0}, []int{10}, "plain", 4},
-			{[]int{0, 10}, nil, "plain", 4},
-			{[]int{0, 0}, nil, "full", 3},
-			{[]int{0, 0, 10}, nil, "plain", 3},
+			{[]int{0, 0}, nil, "core", 5, ""},
+			{[]int{0, 0}, []int{10}, "plain", 4, ""},
+			{[]int{0, 10}, nil, "plain", 4, ""},
+			{[]int{0, 0}, nil, "full", 3, ""},
+			{[]int{0, 0, 10}, nil, "plain", 3, ""},
+			{[]int{0, 0}, nil, "core", 4, "%a"},
+			{[]int{0, 0}, []int{10}, "plain", 3, "%sn"},
+			{[]int{0, 10}, nil, "plain", 3, "%an"},
+			{[]int{0, 0}, nil, "full", 3, "%s"},
 		}
 	}
 	n, pruned := 0, 0
@@ -243,14 +250,18 @@ func runContention(r *common.Run) int {
 				}
 			}
 			r.Mark("case contention %d", n)
-			if d := runMacroCase(r, cf.addrs, nsConfs['c'], ms, "contention"); d > 0 {
+			sess := nsConfs['c']
+			if cf.ns != "" {
+				sess, _ = splitConf([]string{cf.ns})
+			}
+			if d := runMacroCase(r, cf.addrs, sess, ms, "contention"); d > 0 {
 				dead[macroLine(ms[:d])] = true
 			}
 			n++
 		})
 	}
 	r.Notes = append(r.Notes, fmt.Sprintf("contention: %d sequences skipped because an operation of theirs does nothing after its prefix (equal to a shorter history)", pruned))
-	rconfs := []conf{{[]int{0, 0}, []int{10}, "full", 0}, {[]int{0, 10}, nil, "full", 0}, {[]int{0, 0, 10}, nil, "full", 0}, {[]int{0, 0}, nil, "core", 0}}
+	rconfs := []conf{{[]int{0, 0}, []int{10}, "full", 0, ""}, {[]int{0, 10}, nil, "full", 0, ""}, {[]int{0, 0, 10}, nil, "full", 0, ""}, {[]int{0, 0}, nil, "core", 0, ""}}
 	for k := r.Pick(500, 8000); k > 0 && !stop(); k-- {
 		cf := rconfs[r.Rnd.Intn(len(rconfs))]
 		alpha := macroAlphabet(cf.addrs, cf.nicks, cf.kind)
